@@ -9,6 +9,7 @@ package main
 import (
 	"fmt"
 	"os"
+	"strings"
 	"sync"
 	"sync/atomic"
 	"time"
@@ -23,14 +24,17 @@ type ptyPair struct {
 	rows   int
 	cols   int
 
-	mu      sync.Mutex
-	cur     []byte // bytes read since the last cut
-	curT0   int64
-	cutReq  atomic.Int64
-	cutAck  atomic.Int64
-	stop    atomic.Bool
-	stopped chan struct{}
-	broken  atomic.Bool
+	mu          sync.Mutex
+	cur         []byte // bytes read since the last cut
+	curT0       int64
+	cutReq      atomic.Int64
+	cutAck      atomic.Int64
+	stop        atomic.Bool
+	stopped     chan struct{}
+	broken      atomic.Bool
+	cutT        time.Time
+	expectRows  atomic.Int64
+	expectBytes atomic.Bool
 }
 
 func openPty(rows, cols int) (*ptyPair, error) {
@@ -82,10 +86,16 @@ func (p *ptyPair) reader() {
 			p.mu.Unlock()
 			continue
 		}
-		// nothing available right now
+		// nothing available right now. A write to the slave reaches the master
+		// through a kernel work item, i.e. possibly a little later than the
+		// writer's return: close the frame only once it is complete (it holds
+		// the number of rows the flush.write hook announced and ends in a
+		// newline), or after a grace period.
 		if req := p.cutReq.Load(); req != p.cutAck.Load() {
-			p.flushCut()
-			p.cutAck.Store(req)
+			if p.complete() || time.Since(p.cutSince()) > 300*time.Millisecond {
+				p.flushCut()
+				p.cutAck.Store(req)
+			}
 		}
 		if p.stop.Load() {
 			p.flushCut()
@@ -100,6 +110,34 @@ func (p *ptyPair) reader() {
 		}
 		time.Sleep(30 * time.Microsecond)
 	}
+}
+
+func (p *ptyPair) cutSince() time.Time {
+	p.mu.Lock()
+	defer p.mu.Unlock()
+	return p.cutT
+}
+
+// complete: the bytes read since the last cut form a whole flush.
+func (p *ptyPair) complete() bool {
+	p.mu.Lock()
+	b := p.cur
+	p.mu.Unlock()
+	want := int(p.expectRows.Load())
+	if len(b) == 0 {
+		return want == 0 && !p.expectBytes.Load()
+	}
+	last := b[len(b)-1]
+	if last != '\n' && last != 'J' {
+		return false
+	}
+	n := 0
+	for _, l := range strings.Split(string(b), "\n") {
+		if markerRe.MatchString(l) || extRe.MatchString(strings.TrimSpace(strings.TrimSuffix(stripSGR(l), "\r"))) {
+			n++
+		}
+	}
+	return n >= want
 }
 
 func (p *ptyPair) flushCut() {
@@ -119,6 +157,9 @@ func (p *ptyPair) flushCut() {
 // cut is called from the render.end hook: everything the cycle wrote is in the
 // kernel buffer by now; wait until the reader has taken it and closed the frame.
 func (p *ptyPair) cut() {
+	p.mu.Lock()
+	p.cutT = time.Now()
+	p.mu.Unlock()
 	req := p.cutReq.Add(1)
 	for i := 0; i < 100000 && p.cutAck.Load() < req; i++ {
 		time.Sleep(20 * time.Microsecond)
